@@ -402,19 +402,43 @@ def main(tier=None, replay=None):
             return (1, len(o["pu"]) + len(o["ps"]), len(o["res"]), json.dumps(o, sort_keys=True))
         return (0, sum(o[2]), 0, str(o))
 
+    # a downstream rejection that is explained by a rejection of the kernel itself (same input class) is
+    # reported under the kernel's key; downstream keys remain for defects the kernel does not show
+    kernel_bad = {bad[i] for i in bad if cases[i]["kind"] == "seg" and cases[i]["site"] == "_closest_points_on_segments_2d"}
+    PREFIX = "meeting-point-not-at-closest-points-of-local-segments|"
+    counts = {}
+    keyed = []
     for i in sorted(bad, key=size):
         o, case, v = observations[i], cases[i], bad[i]
         if case["kind"] == "seg":
             site = case["site"]
-            desc = (f"{site}{tuple(case['seg'])} returns s={o[3][0]}/{o[3][1]} t={o[4][0]}/{o[4][1]}: {v}: the points at the "
-                    f"returned parameters are not a closest pair of the two segments (TLC: squared distance differs "
-                    f"from the exact minimum)" if v.endswith("segments") or v.endswith("segment") else
-                    f"{site}{tuple(case['seg'])}: {v}")
+            cls = v
         else:
             site = "_ConnectionEngine.solve" if case["via_engine"] else "_ConnectionsBackend.run"
-            desc = f"{site}: {v}: observation {json.dumps(obs_json(o))[:500]}"
-        n_same = sum(1 for k in bad if bad[k] == v and cases[k].get("site", cases[k].get("via_engine")) == case.get("site", case.get("via_engine")))
-        ck.violation(f"{site}|{v}", desc + f" ({n_same} case(s) with this key)", dict(case, verdict=v, observation=obs_json(o)))
+            cls = v[len(PREFIX):] if v.startswith(PREFIX) else None
+        if cls in kernel_bad and site != "_closest_points_on_segments_2d":
+            key = f"_closest_points_on_segments_2d|{cls}"
+            counts.setdefault(key, {}).setdefault("seen through " + site, 0)
+            counts[key]["seen through " + site] += 1
+            continue
+        key = f"{site}|{v}"
+        counts.setdefault(key, {}).setdefault("direct", 0)
+        counts[key]["direct"] += 1
+        keyed.append((key, i))
+    done = set()
+    for key, i in keyed:
+        if key in done:
+            continue
+        done.add(key)
+        o, case, v = observations[i], cases[i], bad[i]
+        if case["kind"] == "seg":
+            sg = case["seg"]
+            desc = (f"{case['site']}{tuple(sg)} returns s={o[3][0]}/{o[3][1]} t={o[4][0]}/{o[4][1]} ({v}): TLC judges that the "
+                    f"points at the returned parameters are not a closest pair of segment ({sg[0]},{sg[1]})-({sg[2]},{sg[3]}) "
+                    f"and segment ({sg[4]},{sg[5]})-({sg[6]},{sg[7]})" if not o[5] else f"{case['site']}{tuple(sg)}: {v}")
+        else:
+            desc = f"{key.split('|')[0]}: {v}: observation {json.dumps(obs_json(o))[:500]}"
+        ck.violation(key, desc + f" ;; occurrences: {counts[key]}", dict(case, verdict=v, observation=obs_json(o)))
 
     # ---- 4. binding self-test
     selftest(ck, observations, verdicts, rnd)
